@@ -5,6 +5,8 @@ NOTES = ('Static analysis only: every check parses /repo/bct with ast on each ru
 ENGINES = [
     {'name': 'core', 'path': 'sa/core', 'serves_properties': [], 'kind_free_text': 'ast loader, import/call resolution, statement CFG with dominators, report/evidence'},
     {'name': 'callgraph', 'path': 'sa/engines/callgraph.py', 'serves_properties': ['C05', 'C13'], 'kind_free_text': 'whole-package call graph over resolved callees'},
+    {'name': 'alias', 'path': 'sa/engines/alias.py', 'serves_properties': ['C13', 'C17', 'C01'], 'kind_free_text': 'may-alias/may-mutate abstract interpretation with interprocedural summaries'},
+    {'name': 'pattern+canon', 'path': 'sa/core/pattern.py', 'serves_properties': ['C17'], 'kind_free_text': 'AST templates with metavariables; sympy normal forms (term rewriting, no evaluation)'},
     {'name': 'selftest', 'path': 'sa/selftest.py', 'serves_properties': [], 'kind_free_text': 'thorough tier: breaking and neutral source variants in a temp copy; blind/noisy rule => exit 2'},
 ]
 
@@ -12,6 +14,29 @@ PENDING = 'check not built yet in this session; see DESIGN.md section 5 for the 
 NOT_APPLICABLE = {('C%02d' % i): PENDING for i in range(1, 21)}
 
 CHECKS = {
+    'C13': {
+        'engine': 'alias',
+        'technique': 'interprocedural may-alias / may-mutate dataflow over statement CFGs (ast), flow-sensitive, copy-flag path pruning',
+        'text': 'For each of the ~155 public functions and each parameter: no path, in the function or in any resolved callee, writes memory that '
+                'may alias the parameter while the documented `copy` flag has its default. Abstract value = set of parameters a variable may '
+                'share memory with, under an explicit NumPy view/copy table; a violation names the write site and call chain. Decides the whole '
+                'property (for all inputs) relative to that table.',
+        'note': 'Trusted base: the view/copy/writer table of NumPy primitives printed in the evidence; external NumPy/SciPy functions outside the '
+                'writer list are assumed not to modify their arguments; index expressions of unknown kind are treated as views (errs towards '
+                'reporting). Mutation through objects stored in Python containers one level deep is tracked; deeper nesting is not.',
+    },
+    'C17': {
+        'engine': 'alias + obligations',
+        'technique': 'copy/identity typestate (alias engine, both copy modes), CFG dominance, name resolution, sympy formula canonicalisation, AST patterns with metavariables',
+        'text': 'Necessary structural conditions on every path: copy=True leaves the argument untouched and returns fresh memory; copy=False returns '
+                'the argument object itself, which is the object written; range precondition dominates all effects; diagonal clear dominates every '
+                'return; `round` resolves to teachers_round; kept-count canonicalises to (n^2-n)p/ud; symmetric branch zeroes a triangle, halves the '
+                'count and rebuilds W+W.T by slice store; element-wise masks of binarize/normalize/invert/threshold_absolute have the documented '
+                'form and nothing else writes W; weight_conversion dispatch equals its docstring table.',
+        'note': 'Does not decide: which entries argsort ranks first among ties, exact counts produced by floating-point p*count beyond the use of '
+                'teachers_round, or numerical values. Mask forms are matched up to the listed equivalent spellings; a different but equivalent '
+                'algorithm would be reported (fail-closed) and needs the table extended.',
+    },
     'C05': {
         'engine': 'callgraph',
         'technique': 'interprocedural RNG effect analysis (ast + resolved call graph + dominators)',
